@@ -293,4 +293,17 @@ theorem C01_code_table (pots : List Pot) (cut : Rat) (nr : Nat) (out : List Tok)
   simp [lammpsTable, List.map_map, Function.comp_def]
 
 
+open Atsim.Gen.Logic in
+/-- **code tie (the tabulation object)**: `LAMMPS_PairTabulation.write` as regenerated - the `dr` property, `cutoff`, `nr - 1` handed to the writer in that order -
+    writes `lammpsTable pots cutoff nr` -/
+theorem C01_code_tabulation_write (pots : List Pot) (cut : Rat) (nr : Nat) (hnr : 1 ≤ nr) (out : List Tok) :
+    lammps_tab_write ⟨(nr : Int), cut, pots.map Writer.toRec⟩ out = out ++ joinStreams ((lammpsTable pots cut nr).map Writer.renderBlock) := by
+  have hdr : tab_dr ⟨(nr : Int), cut, pots.map Writer.toRec⟩ = pairDr cut nr := by
+    simp only [tab_dr, pairDr]
+    push_cast
+    rfl
+  have hn : ((nr : Int) - (1 : Int)) = ((nr - 1 : Nat) : Int) := by omega
+  simp only [lammps_tab_write, hdr, hn]
+  exact C01_code_table pots cut nr out
+
 end Atsim.C01
